@@ -1,6 +1,7 @@
 """C15 — tree distances depend on topology only, not on how the tree is written."""
 import itertools
 import json
+import os
 import re
 
 import common
@@ -218,7 +219,18 @@ def run(chk):
             sa = newick(ta, names, lengths, rng)
             sb = newick(tb, names, lengths, rng)
             try:
-                A, B = Tree(sa), Tree(sb)
+                if rng.random() < 0.15:
+                    # the first tree read from a file: a file holds the same text, and gives the same tree
+                    import tempfile
+                    with tempfile.NamedTemporaryFile('w', suffix='.nwk', dir='/var/tmp', delete=False, encoding='utf8') as fh_:
+                        fh_.write(sa)
+                    try:
+                        A, B = Tree(fh_.name), Tree(sb)
+                    finally:
+                        os.remove(fh_.name)
+                    chk.hist['tree read from a file'] += 1
+                else:
+                    A, B = Tree(sa), Tree(sb)
                 strA, strB = str(A), str(B)
                 if len(text_samples) < 400:
                     text_samples.append(strA)
